@@ -66,6 +66,12 @@ def build(case, labels=None):
             d = [s.int_var(lo, hi) for lo, hi in case["doms"]]
             graph.division_connected(s, IntArray1D(d) if case.get("as_array") else d, R, g, **kw)
             return s, d
+        if form == "shared":
+            # several vertices labelled by the very same variable object (merged cells): case["share"][v] = variable index
+            groups = [s.int_var(0, R - 1) for _ in range(max(case["share"]) + 1)]
+            d = [groups[k] for k in case["share"]]
+            graph.division_connected(s, IntArray1D(d) if case.get("as_array") else d, R, g, **kw)
+            return s, groups
         if form == "exprs":
             # labels given as compound expressions over variables with shifted domains
             xs = [s.int_var(1 + (v % 2), R + (v % 2)) for v in range(case["n"])]
@@ -116,6 +122,11 @@ def run_case(part, case, prange=None):
             gcheck.judge(part, key, case, labels, exp, s, [])
         else:
             vals = labels
+            if case["form"] == "shared":
+                share = case["share"]
+                if any(labels[u] != labels[v] for u in range(n) for v in range(n) if share[u] == share[v]):
+                    continue  # not expressible with shared variables
+                vals = [labels[share.index(k)] for k in range(max(share) + 1)]
             if case["form"] == "subdomain":
                 exp = exp and all(lo <= x <= hi for x, (lo, hi) in zip(labels, case["doms"]))
             elif case["form"] == "exprs":
@@ -259,6 +270,31 @@ def cases_for(tier):
                             out.append({"form": "subdomain", "n": n, "edges": list(edges), "R": R, "roots": None, "allow_empty": allow_empty, "prim": prim, "doms": doms, "as_array": k == 1})
                     if n <= 3 or len(edges) == 3:
                         out.append({"form": "exprs", "n": n, "edges": list(edges), "R": R, "roots": None if n % 2 else [n - 1] + [None] * (R - 1), "allow_empty": False, "prim": prim})
+    # merged cells: adjacent (and non-adjacent) vertices labelled by one and the same variable object
+    for n in range(2, 5):
+        for edges in graphref.simple_graphs(n):
+            if not edges or (n == 4 and len(edges) not in (3, 4)):
+                continue
+            shares = []
+            u, v = edges[0]
+            shares.append([min(u, v) if x in (u, v) else x for x in range(n)])  # the two ends of the first edge
+            u, v = edges[-1]
+            shares.append([min(u, v) if x in (u, v) else x for x in range(n)])  # ... of the last edge
+            shares.append([0 if x in (0, n - 1) else x for x in range(n)])  # first and last vertex (adjacent or not)
+            shares.append([x // 2 for x in range(n)])  # consecutive pairs
+            seen = []
+            for sh in shares:
+                ids = sorted(set(sh))
+                sh = [ids.index(x) for x in sh]
+                if sh in seen or len(set(sh)) == n:
+                    continue
+                seen.append(sh)
+                for R in (2, 3):
+                    for prim in (False, True):
+                        if tier == "quick" and n == 4 and (R == 3) != prim:
+                            continue
+                        out.append({"form": "shared", "n": n, "edges": list(edges), "R": R, "roots": None if len(seen) % 2 else [None] * (R - 1) + [n - 1], "allow_empty": bool(len(seen) % 2), "prim": prim, "share": sh,
+                                    "as_array": len(seen) == 2})
     for h, w in ((2, 3), (3, 2), (1, 5)):
         n = h * w
         for k, doms in enumerate(doms_menu(n, 3)[:2]):
